@@ -118,7 +118,7 @@ theorem typeOfScript_other (pops : List Pop) (h : templateShape pops = false) :
   simp only [bind, Except.bind, pure, Except.pure]
   cases bm <;> cases bn <;> simp [nonTemplate]
 
-open Spec.Script (template Template)
+open MW.Spec.Script (template Template legalTarget22 bindingLockedPeriod)
 
 theorem parseScript_of_toks (s : Bytes) (pops : List Pop) (h : Toks s pops) : parseScript s = .ok pops := by
   rw [parseScript_eq]; exact (tokF_ok_iff _ _ _ (Nat.le_refl _)).mpr h
@@ -225,7 +225,6 @@ theorem newTarget_spec (t : Bytes) (ht : t.length = 22) :
       by_cases h2 : 200 < sz.toNat <;>
       simp [h0, h1', e1, e2, h1, h2, fail, pure, Except.pure] <;> omega
 
-open Spec.Script in
 /-- the wallet's reading of every script, by its byte-level template -/
 theorem parsePkScript_spec (s : Bytes) :
     parsePkScript s =
@@ -270,12 +269,10 @@ theorem parsePkScript_spec (s : Bytes) :
     · simp [hlt, Gen.Script.bindingLockedPeriod, bindingLockedPeriod]
     · simp [hlt, fail]
 
-open Spec.Script in
 /-- the addresses the library extracts for a binding target -/
 def targetAddrs (t : Bytes) : List Addr :=
   if t.length = 20 then [.pkh t] else if legalTarget22 t then [.target t] else []
 
-open Spec.Script in
 /-- txscript.GetScriptClass of every script, by its byte-level template -/
 theorem getScriptClass_spec (s : Bytes) :
     match template s with
@@ -294,7 +291,6 @@ theorem getScriptClass_spec (s : Bytes) :
   | binding20 h t hp hl e hT => simp [hp, hT, typeOfScript_b20, catchErr, bind, Except.bind]
   | binding22 h t hp hl e hT => simp [hp, hT, typeOfScript_b22, catchErr, bind, Except.bind]
 
-open Spec.Script in
 /-- txscript.ExtractPkScriptAddrs on the three templates (any `pkValid`) -/
 theorem extractPkScriptAddrs_spec (pkValid : Bytes → Bool) (s : Bytes) :
     match template s with
@@ -320,7 +316,6 @@ theorem extractPkScriptAddrs_spec (pkValid : Bytes → Bool) (s : Bytes) :
       pure, Except.pure, e, Gen.Script.OP_DATA_20, newTarget_spec t e, targetAddrs]
     by_cases hlt : legalTarget22 t = true <;> simp [hlt, fail]
 
-open Spec.Script in
 /-- type / size fields the API shows for a 22-byte target -/
 def targetView (t : Bytes) : BindingView :=
   ⟨.target t, (t.drop 20).head? == some 1, match (t.drop 21).head? with | some b => b.toNat | none => 0⟩
@@ -335,7 +330,6 @@ theorem calcMultiSigStats_total (s : Bytes) (pops : List Pop) (hp : parseScript 
     rw [if_neg h, idx_lt pops 0 (by omega), idx_lt pops (pops.length - 2) (by omega)]
     exact ⟨_, rfl⟩
 
-open Spec.Script in
 /-- api.extractAddressInfos of every script, by its byte-level template (any `pkValid`) -/
 theorem extractAddressInfos_spec (pkValid : Bytes → Bool) (s : Bytes) :
     match template s with
